@@ -143,13 +143,27 @@ fn scan_hex(cs: &[char], mut i: usize) -> Result<(Vec<u8>, usize), String> {
 const PG_OP_CHARS: &str = "+-*/<>=~!@#%^&|`?";
 const MULTI_OPS: [&str; 14] = ["<=>", "->>", "<<", ">>", "<=", ">=", "<>", "!=", "==", "||", "&&", "->", ":=", "::"];
 
-pub fn lex(b: B, sql: &str) -> Result<Vec<Tok>, String> {
+pub fn lex(b: B, sql: &str) -> Result<Vec<Tok>, String> { lex_impl(b, sql).map(|x| x.0) }
+
+/// byte spans (start, end, number) of the placeholder tokens of `sql`, in reading order
+pub fn param_spans(b: B, sql: &str) -> Result<Vec<(usize, usize, Option<u32>)>, String> {
+    let (toks, spans) = lex_impl(b, sql)?;
+    let offs: Vec<usize> = sql.char_indices().map(|(i, _)| i).chain(std::iter::once(sql.len())).collect();
+    Ok(toks.iter().zip(spans.iter()).filter_map(|(t, (s, e))| if let Tok::Param(p) = t { Some((offs[*s], offs[*e], *p)) } else { None }).collect())
+}
+
+/// tokens with their (start, end) character spans
+pub fn lex_impl(b: B, sql: &str) -> Result<(Vec<Tok>, Vec<(usize, usize)>), String> {
     let cs: Vec<char> = sql.chars().collect();
     let mut i = 0;
-    let mut out = Vec::new();
+    let mut out: Vec<Tok> = Vec::new();
+    let mut spans: Vec<(usize, usize)> = Vec::new();
+    let mut start = 0;
     while i < cs.len() {
+        if out.len() > spans.len() { spans.push((start, i)); }
         let c = cs[i];
         if c == ' ' || c == '\t' || c == '\n' || c == '\r' || c == '\x0c' { i += 1; continue; }
+        start = i;
         // comments are never produced by the crate on purpose: flag them
         if c == '-' && i + 1 < cs.len() && cs[i + 1] == '-' { return Err(format!("comment start `--` at {i}")); }
         if c == '/' && i + 1 < cs.len() && cs[i + 1] == '*' { return Err(format!("comment start `/*` at {i}")); }
@@ -260,7 +274,8 @@ pub fn lex(b: B, sql: &str) -> Result<Vec<Tok>, String> {
         if "+-*/%<>=!&|^~@:".contains(c) { out.push(Tok::Punct(c.to_string())); i += 1; continue; }
         return Err(format!("unexpected character {:?} at {i}", c));
     }
-    Ok(out)
+    if out.len() > spans.len() { spans.push((start, i)); }
+    Ok((out, spans))
 }
 
 pub fn strings(toks: &[Tok]) -> Vec<String> { toks.iter().filter_map(|t| if let Tok::Str(s) = t { Some(s.clone()) } else { None }).collect() }
